@@ -155,7 +155,7 @@ package tls
 //@ pred ngAcc(id, supportedIDs, ok) = exists(t, 0, len(implementedCipherSuites), implementedCipherSuites[t].id == id && forall(u, 0, t, implementedCipherSuites[u].id != id) && apply(ok, implementedCipherSuites[t])) && exists(k, 0, len(supportedIDs), supportedIDs[k] == id)
 //@ func selectCipherSuite
 //@   requires nonnil(ok)
-//@   uses purefuncs
+//@   uses purefuncs xadd
 //@   loop 1 invariant 0 <= it && forall(j, 0, it, !ngAcc(ids[j], supportedIDs, ok))
 //@   loop 2 invariant 0 <= it && forall(k, 0, it, supportedIDs[k] != id)
 //@   ensures [sound] result != nil ==> apply(ok, result) && exists(i, 0, len(ids), ids[i] == result.id) && exists(k, 0, len(supportedIDs), supportedIDs[k] == result.id)
